@@ -440,12 +440,13 @@ class FileStore:
 
 
 class Executor:
-    def __init__(self, scenario, wall_s=20.0):
+    def __init__(self, scenario, wall_s=10.0, wall_cap=60.0):
         self.sc = scenario
         self.store = FileStore(scenario.get("files", {}))
         self.log = []          # event log (digest source)
         self.registry = None   # shared API-level registry
         self.wall_s = wall_s
+        self.wall_cap = wall_cap
         self.scratch = None
         self.by_path = {}      # virtual paths for API-level reads
 
@@ -553,6 +554,13 @@ class Executor:
         real_open = builtins.open
         fl = {f["call"]: f for f in (faults or []) if f.get("seam") == "open"}
 
+        def wrap(data, a, k):
+            mode = a[0] if a else k.get("mode", "r")
+            if "b" in mode:
+                return io.BytesIO(data)
+            return io.TextIOWrapper(io.BytesIO(data), encoding=k.get("encoding") or "utf-8",
+                                    errors=k.get("errors"), newline=k.get("newline"))
+
         def sim_open(path, *a, **k):
             idx = calls["n"]
             calls["n"] += 1
@@ -571,12 +579,12 @@ class Executor:
                     raise IsADirectoryError(21, "Is a directory", spath)
                 if kind == "replace":      # a second actor replaced the content (TOCTOU)
                     data = ex.store.data(f["file"])
-                    return io.TextIOWrapper(io.BytesIO(data), encoding="utf-8")
+                    return wrap(data, a, k)
                 raise ValueError(kind)
             if spath in ex.by_path:
                 data = ex.store.data(ex.by_path[spath])
                 ex.ev("open", spath, None, sha(data))
-                return io.TextIOWrapper(io.BytesIO(data), encoding="utf-8")
+                return wrap(data, a, k)
             fh = real_open(path, *a, **k)
             ex.ev("open", ex.relpath(spath), None)
             return fh
@@ -614,7 +622,7 @@ class Executor:
             self.disarm_wall()
             sys.stdout, sys.stderr = old
         if CLOCK.expired:
-            res["outcome"] = "hang"
+            res["outcome"] = "slow" if CLOCK.expired == "slowcap" else "hang"
             res["hang_kind"] = CLOCK.expired
             res["site"] = CLOCK.site
         try:
@@ -668,7 +676,7 @@ class Executor:
             sys.stdout, sys.stderr = old
             CLOCK.disarm()
         if CLOCK.expired:
-            res["outcome"] = "hang"
+            res["outcome"] = "slow" if CLOCK.expired == "slowcap" else "hang"
             res["hang_kind"] = CLOCK.expired
             res["site"] = CLOCK.site
             CLOCK.expired = None
@@ -693,12 +701,26 @@ class Executor:
 
     # ---- wall backstop -------------------------------------------------------------------------
     def arm_wall(self):
+        """Wall backstop for loops that do not tick. It never turns a slow-but-advancing run into a
+        hang: while simulated time advances between two alarms the run is left alone (the tick
+        deadline decides), up to a cap after which the outcome is the inconclusive "slow"."""
+        state = {"snap": -1, "elapsed": 0.0}
+        interval = self.wall_s
+        cap = self.wall_cap
+
         def on_alarm(signum, frame):
-            CLOCK.expired = "wall"
+            now = CLOCK.ticks + CLOCK.lex_ticks
+            state["elapsed"] += interval
+            if now != state["snap"] and state["elapsed"] < cap:
+                state["snap"] = now
+                signal.setitimer(signal.ITIMER_REAL, interval)
+                return
+            CLOCK.expired = "wall" if now == state["snap"] else "slowcap"
             CLOCK.site = site_of_stack(frame)
-            raise SimDeadline("wall")
+            raise SimDeadline(CLOCK.expired)
+        state["snap"] = CLOCK.ticks + CLOCK.lex_ticks
         signal.signal(signal.SIGALRM, on_alarm)
-        signal.setitimer(signal.ITIMER_REAL, self.wall_s)
+        signal.setitimer(signal.ITIMER_REAL, interval)
 
     def disarm_wall(self):
         signal.setitimer(signal.ITIMER_REAL, 0)
@@ -832,7 +854,7 @@ class Executor:
                 os.chdir("/")
             CLOCK.disarm()
         if CLOCK.expired:
-            res["end"] = "hang"
+            res["end"] = "slow" if CLOCK.expired == "slowcap" else "hang"
             res["hang_kind"] = CLOCK.expired
             res["site"] = CLOCK.site
             CLOCK.expired = None
@@ -881,5 +903,5 @@ def nlines_src(fobj):
         return None
 
 
-def execute(scenario, wall_s=20.0):
-    return Executor(scenario, wall_s=wall_s).run()
+def execute(scenario, wall_s=10.0, wall_cap=60.0):
+    return Executor(scenario, wall_s=wall_s, wall_cap=wall_cap).run()
